@@ -913,6 +913,9 @@ def case_cascade(cuqi, meta):
                 quiet(BP.sample_posterior, 3, experimental=bool(meta.get("experimental")))
             except NotImplementedError:
                 taken.append("NotImplementedError")
+            except Exception:
+                if not taken:
+                    raise
     finally:
         cuqi.config.MAX_DIM_INV = old
     order = ["_sampleGibbs", "_sampleMapCholesky", "_sampleLinearRTO", "_sampleUGLA", "_sampleNUTS", "_samplepCN",
@@ -988,6 +991,9 @@ def case_route(cuqi, meta):
                 quiet(BP.sample_posterior, 3)
             except NotImplementedError:
                 taken.append("NotImplementedError")
+            except Exception:
+                if not taken:         # (the recorders return None: post-processing of their result may fail afterwards)
+                    raise
     finally:
         cuqi.config.MAX_DIM_INV = old
     sample_direct = taken[:1] == ["_sampleMapCholesky"]
